@@ -134,7 +134,7 @@ pp_twprge_no_ewt = re.compile(
     ((?<=[,;:])|(?<=\b))    # Word boundary or comma (or similar) lookbehind.
     
     # The word or symbol for "Township" (optional).
-    (
+    ((
     T|
     Tw\.?|
     Twp\.?|
@@ -144,9 +144,11 @@ pp_twprge_no_ewt = re.compile(
     To{1,2}w{1,2}s{1,2}n{1,2}h{1,2}i{0,2}p{0,2}|
     To{1,2}w{1,2}n{1,2}h{1,2}s{1,2}i{0,2}p{0,2}|
     To{1,2}w{1,2}n{1,2}s{1,2}i{0,2}h{1,2}p{0,2}
-    )?
-    
-    [\.\-–—,\s]*            # Deadspace between "Township" and twpnum.
+    )
+    [\.\-–—,\s]*            # Deadspace between "Township" and twpnum
+    )?                      #   (only if that word is there: without it, the
+                            #   match begins at the number and leaves what
+                            #   precedes it alone).
     (?P<twpnum>\d{1,3})     # twpnum
     [\.\-–—,\s]*            # Deadspace between twpnum and n/s
     (?P<ns>N[orth]{0,5}|S[outh]{0,5})   # n/s (required)
